@@ -562,8 +562,11 @@ Inductive tph :=
 | TEndCk                  (* at the end cell, suspended in checkpoint() *)
 | TRetSh (v : Z).         (* suspended in the final cancel_shielded_checkpoint() before returning v *)
 
-Inductive top := TNext (c : nat) | TResume (c : nat).
-Inductive tres := TBlocked | TRet (v : Z) | TStop | TRejected.
+(* TCopy c k: `tee(it_c, k)` on the existing tee iterator it_c - k new consumers (numbered from tn on) that share the
+   state and start at it_c's current link, each with its own _element_yielded = False; it_c itself is untouched and
+   stays usable (lines 112-122, 567-570) *)
+Inductive top := TNext (c : nat) | TResume (c : nat) | TCopy (c k : nat).
+Inductive tres := TBlocked | TRet (v : Z) | TStop | TRejected | TCopied (first : nat).
 
 (* source mode: 0 sync (adaptor), 1 async never suspending, 2 async suspending once per __anext__ *)
 Record tst := mkT {
@@ -578,16 +581,19 @@ Record tst := mkT {
   tn : nat;
   tseen : nat -> list Z;         (* ghost: values returned to consumer c, in order *)
   tstopped : nat -> bool;        (* ghost: consumer c has seen StopAsyncIteration *)
-  tpolled : list cell            (* ghost: result of every __anext__ of the source, in order *)
+  tpolled : list cell;           (* ghost: result of every __anext__ of the source, in order *)
+  tstart : nat -> nat;           (* ghost: link at which consumer c started (0, or the original's link for a copy) *)
+  tcks : nat -> nat;             (* ghost: checkpoint events logged by consumer c's segments *)
+  tlocks : nat -> nat            (* ghost: Lock.acquire() calls of consumer c (each one is a checkpoint, C08/C09) *)
 }.
 
 Definition tinit (mode : nat) (l : list Z) (n : nat) : tst :=
   mkT mode l (fun _ => None) None [] (fun _ => 0) (fun _ => false) (fun _ => TIdle) n
-      (fun _ => []) (fun _ => false) [].
+      (fun _ => []) (fun _ => false) [] (fun _ => 0) (fun _ => 0) (fun _ => 0).
 
 Definition set_phase (s : tst) (c : nat) (p : tph) : tst :=
   mkT (tmode s) (tsrc s) (tcells s) (towner s) (twait s) (tlink s) (tyielded s) (upd (tphase s) c p) (tn s)
-      (tseen s) (tstopped s) (tpolled s).
+      (tseen s) (tstopped s) (tpolled s) (tstart s) (tcks s) (tlocks s).
 
 (* The step function is a composition of the following moves.  TIdle also stands for "running": a move that
    resumes a suspended consumer first marks it TIdle (t_wake). *)
@@ -597,9 +603,9 @@ Definition t_wake (s : tst) (c : nat) : tst := set_phase s c TIdle.
 Definition t_release (s : tst) : tst :=
   match twait s with
   | [] => mkT (tmode s) (tsrc s) (tcells s) None [] (tlink s) (tyielded s) (tphase s) (tn s)
-              (tseen s) (tstopped s) (tpolled s)
+              (tseen s) (tstopped s) (tpolled s) (tstart s) (tcks s) (tlocks s)
   | w :: r => mkT (tmode s) (tsrc s) (tcells s) (Some w) r (tlink s) (tyielded s) (tphase s) (tn s)
-                  (tseen s) (tstopped s) (tpolled s)
+                  (tseen s) (tstopped s) (tpolled s) (tstart s) (tcks s) (tlocks s)
   end.
 
 (* __anext__ after fill() returned had_yieldpoint (lines 126-143) *)
@@ -608,24 +614,24 @@ Definition t_finish (s : tst) (c : nat) (had : bool) : tst * tres * list (event 
   | Some CEnd =>
       if tyielded s c then
         (mkT (tmode s) (tsrc s) (tcells s) (towner s) (twait s) (tlink s) (tyielded s) (upd (tphase s) c TIdle)
-             (tn s) (tseen s) (upd (tstopped s) c true) (tpolled s), TStop, [])
+             (tn s) (tseen s) (upd (tstopped s) c true) (tpolled s) (tstart s) (tcks s) (tlocks s), TStop, [])
       else (set_phase s c TEndCk, TBlocked, [Ck])
   | Some (CVal v) =>
       if had then
         (mkT (tmode s) (tsrc s) (tcells s) (towner s) (twait s) (upd (tlink s) c (S (tlink s c)))
              (upd (tyielded s) c true) (upd (tphase s) c TIdle) (tn s)
-             (upd (tseen s) c (tseen s c ++ [v])) (tstopped s) (tpolled s), TRet v, [])
+             (upd (tseen s) c (tseen s c ++ [v])) (tstopped s) (tpolled s) (tstart s) (tcks s) (tlocks s), TRet v, [])
       else
         (mkT (tmode s) (tsrc s) (tcells s) (towner s) (twait s) (upd (tlink s) c (S (tlink s c)))
              (upd (tyielded s) c true) (upd (tphase s) c (TRetSh v)) (tn s)
-             (tseen s) (tstopped s) (tpolled s), TBlocked, [CkIf; Sh])
+             (tseen s) (tstopped s) (tpolled s) (tstart s) (tcks s) (tlocks s), TBlocked, [CkIf; Sh])
   | None => (s, TRejected, [])
   end.
 
 (* `link.value = ...; link.next = _TeeLink(); link.filled = True` by the (running) lock owner *)
 Definition t_store (s : tst) (c : nat) (x : cell) : tst :=
   mkT (tmode s) (tsrc s) (upd (tcells s) (tlink s c) (Some x)) (towner s) (twait s) (tlink s)
-      (tyielded s) (upd (tphase s) c TIdle) (tn s) (tseen s) (tstopped s) (tpolled s).
+      (tyielded s) (upd (tphase s) c TIdle) (tn s) (tseen s) (tstopped s) (tpolled s) (tstart s) (tcks s) (tlocks s).
 
 (* store x into the consumer's link, release the lock, finish *)
 Definition t_fill (s : tst) (c : nat) (x : cell) : tst * tres * list (event Z) :=
@@ -637,7 +643,8 @@ Definition next_cell (s : tst) : cell := match tsrc s with [] => CEnd | v :: _ =
    holds it (TFilling) until it is stored *)
 Definition t_poll (s : tst) (c : nat) : tst :=
   mkT (tmode s) (List.tl (tsrc s)) (tcells s) (towner s) (twait s) (tlink s) (tyielded s)
-      (upd (tphase s) c (TFilling (next_cell s))) (tn s) (tseen s) (tstopped s) (tpolled s ++ [next_cell s]).
+      (upd (tphase s) c (TFilling (next_cell s))) (tn s) (tseen s) (tstopped s) (tpolled s ++ [next_cell s])
+      (tstart s) (tcks s) (tlocks s).
 
 (* consumer c owns the lock: `if link.filled: return True` else advance the source (lines 96-104) *)
 Definition t_locked (s : tst) (c : nat) : tst * tres * list (event Z) :=
@@ -659,22 +666,35 @@ Definition owner_is (o : option nat) (c : nat) : bool := match o with Some x => 
 
 Definition t_take (s : tst) (c : nat) : tst :=
   mkT (tmode s) (tsrc s) (tcells s) (Some c) [] (tlink s) (tyielded s)
-      (upd (tphase s) c TLockYield) (tn s) (tseen s) (tstopped s) (tpolled s).
+      (upd (tphase s) c TLockYield) (tn s) (tseen s) (tstopped s) (tpolled s) (tstart s) (tcks s)
+      (upd (tlocks s) c (S (tlocks s c))).
 
 Definition t_enqueue (s : tst) (c : nat) : tst :=
   mkT (tmode s) (tsrc s) (tcells s) (towner s) (twait s ++ [c]) (tlink s) (tyielded s)
-      (upd (tphase s) c TLockWait) (tn s) (tseen s) (tstopped s) (tpolled s).
+      (upd (tphase s) c TLockWait) (tn s) (tseen s) (tstopped s) (tpolled s) (tstart s) (tcks s)
+      (upd (tlocks s) c (S (tlocks s c))).
 
 Definition t_stop (s : tst) (c : nat) : tst :=
   mkT (tmode s) (tsrc s) (tcells s) (towner s) (twait s) (tlink s) (tyielded s) (upd (tphase s) c TIdle)
-      (tn s) (tseen s) (upd (tstopped s) c true) (tpolled s).
+      (tn s) (tseen s) (upd (tstopped s) c true) (tpolled s) (tstart s) (tcks s) (tlocks s).
 
 Definition t_return (s : tst) (c : nat) (v : Z) : tst :=
   mkT (tmode s) (tsrc s) (tcells s) (towner s) (twait s) (tlink s) (tyielded s) (upd (tphase s) c TIdle)
-      (tn s) (upd (tseen s) c (tseen s c ++ [v])) (tstopped s) (tpolled s).
+      (tn s) (upd (tseen s) c (tseen s c ++ [v])) (tstopped s) (tpolled s) (tstart s) (tcks s) (tlocks s).
 
-Definition tstep (s : tst) (o : top) : tst * tres * list (event Z) :=
+(* new consumers j in [tn, tn + k): override f on that range *)
+Definition on_new {A} (s : tst) (k : nat) (f : nat -> A) (v : A) : nat -> A :=
+  fun j => if Nat.leb (tn s) j && Nat.ltb j (tn s + k) then v else f j.
+
+Definition t_copy (s : tst) (c k : nat) : tst :=
+  mkT (tmode s) (tsrc s) (tcells s) (towner s) (twait s) (on_new s k (tlink s) (tlink s c))
+      (on_new s k (tyielded s) false) (tphase s) (tn s + k) (on_new s k (tseen s) [])
+      (on_new s k (tstopped s) false) (tpolled s) (on_new s k (tstart s) (tlink s c))
+      (on_new s k (tcks s) 0) (on_new s k (tlocks s) 0).
+
+Definition tstep0 (s : tst) (o : top) : tst * tres * list (event Z) :=
   match o with
+  | TCopy c k => if Nat.ltb c (tn s) then (t_copy s c k, TCopied (tn s), []) else (s, TRejected, [])
   | TNext c =>
       if negb (Nat.ltb c (tn s)) || negb (is_tidle (tphase s c)) then (s, TRejected, []) else
       match tcells s (tlink s c) with
@@ -696,6 +716,16 @@ Definition tstep (s : tst) (o : top) : tst * tres * list (event Z) :=
       | TRetSh v => (t_return s c v, TRet v, [])
       end
   end.
+
+(* ghost bookkeeping: the checkpoint events of a segment are attributed to the consumer that ran it *)
+Definition count_ck (ev : list (event Z)) : nat := length (filter is_ck ev).
+Definition op_consumer (o : top) : nat := match o with TNext c | TResume c | TCopy c _ => c end.
+Definition t_bump (s : tst) (c n : nat) : tst :=
+  mkT (tmode s) (tsrc s) (tcells s) (towner s) (twait s) (tlink s) (tyielded s) (tphase s) (tn s) (tseen s)
+      (tstopped s) (tpolled s) (tstart s) (upd (tcks s) c (tcks s c + n)) (tlocks s).
+
+Definition tstep (s : tst) (o : top) : tst * tres * list (event Z) :=
+  let '(s1, r, ev) := tstep0 s o in (t_bump s1 (op_consumer o) (count_ck ev), r, ev).
 
 Definition tstep1 (s : tst) (o : top) : tst * (tres * list (event Z)) :=
   let '(s1, r, ev) := tstep s o in (s1, (r, ev)).
@@ -1056,7 +1086,9 @@ Definition run_spec_case (c : list Z) : list Z :=
 
 (* tee case: mode :: n :: len :: elements… ++ ops (code, consumer)…; per step:
    [result code; value; owner+1 (0 = free); queued; source polls so far; #events; events…] *)
-Definition dec_top (c t : Z) : top := if (c =? 0)%Z then TNext (zn t) else TResume (zn t).
+(* op codes: 0 next, 1 resume, 2 + j: tee(it_t, j + 1) i.e. a copy producing j + 1 new consumers *)
+Definition dec_top (c t : Z) : top :=
+  if (c =? 0)%Z then TNext (zn t) else if (c =? 1)%Z then TResume (zn t) else TCopy (zn t) (zn (c - 1)).
 
 Fixpoint dec_tops (l : list Z) : list top :=
   match l with
@@ -1065,7 +1097,7 @@ Fixpoint dec_tops (l : list Z) : list top :=
   end.
 
 Definition tres_code (r : tres) : list Z :=
-  match r with TBlocked => [1; 0] | TRet v => [0; v] | TStop => [2; 0] | TRejected => [9; 0] end%Z.
+  match r with TBlocked => [1; 0] | TRet v => [0; v] | TStop => [2; 0] | TRejected => [9; 0] | TCopied n => [3; nz n] end%Z.
 
 Definition tobserve (s : tst) (r : tres) (ev : list (event Z)) : list Z :=
   tres_code r ++ [oz (towner s); nz (length (twait s)); nz (length (tpolled s)); nz (length ev)]
